@@ -163,12 +163,14 @@ def validate_records(module, trace_file, *, name, wd, cfg=None, timeout=3600, xm
 class Check:
     """Accumulates what one check run covered and what it found; writes evidence and decides the exit status."""
 
-    def __init__(self, prop, tier):
+    def __init__(self, prop, tier, clear=True):
         self.prop, self.tier = prop, tier
         self.t0 = time.time()
         import glob
-        for f in glob.glob(os.path.join(WORK, "replay", f"{prop}-*.json")):
-            os.remove(f)
+        # a new run starts from an empty set of replay files (a --replay run must of course keep the file it is given)
+        if clear:
+            for f in glob.glob(os.path.join(WORK, "replay", f"{prop}-*.json")):
+                os.remove(f)
         self.states = 0
         self.transitions = 0
         self.traces = 0
